@@ -23,6 +23,7 @@ DECIDED += ("; R6 a listing applies its existence tests to the candidate entry, 
             "the way the merged view showed it (shared C07-R14)")
 DECIDED += "; R3 sibling replays of the pending log consider the same record kinds (file_len ~ read_file, dir_entries ~ dir_has_children)"
 DECIDED += '; a cancelled ring operation is taken out of whichever pool holds it (shared C18-R1)'
+DECIDED += '; R7 the tokio OpenOptions forwards each option to the std setter of the same name; a refused seek leaves the cursor where it was'
 ASSUMPTIONS = ["Rust's &T / &mut T discipline: a function taking &Fs cannot mutate the tree (Fs has no interior mutability: checked)"]
 
 OBSERVERS = ["file_exists", "dir_exists", "symlink_exists", "file_len", "read_file", "dir_entries", "read_link", "file_mode", "dir_mode",
